@@ -221,6 +221,30 @@ def w_loopback(ctx: core.Ctx, arg):
         wsd._networking_thread = thread
         wsd._server_started = True
         own_kinds = []
+        # history of the node: it has already seen `prefill` distinct foreign messages (the memory of known ids holds 200)
+        prefill = rng.choice([0, 0, 150, 198, 199, 200, 201, 260])
+        if prefill:
+            pre_sentinel = _mk_msg(7777)
+            pre_sentinel.p_msg.header_info_block.MessageID = 'urn:uuid:sentinel'
+            for j in range(prefill):
+                thread._read_queue.put((('10.0.0.2', 3702), _mk_msg(50000 + j).serialize()))
+            thread._read_queue.put((('10.0.0.2', 3702), pre_sentinel.serialize()))
+            th0 = threading.Thread(target=thread._run_q_read, daemon=True)
+            th0.start()
+            ok0 = stub.sentinel.wait(60)
+            thread._quit_recv_event.set()
+            th0.join(5)
+            thread._quit_recv_event.clear()
+            stub.sentinel.clear()
+            try:
+                thread._known_message_ids.remove('urn:uuid:sentinel')  # the end marker is reused below
+            except ValueError:
+                pass
+            stub.handled.clear()
+            if not ok0:
+                ctx.not_decided('q-read loop did not reach the prefill sentinel')
+                continue
+            ctx.count('loopback.prefilled_runs')
         for j in range(rng.randrange(1, 8)):
             rnd.randint_value = rng.randrange(0, 501)
             rnd.randrange_value = rng.randrange(50, 250)
@@ -285,7 +309,7 @@ def w_loopback(ctx: core.Ctx, arg):
             if c != 1:
                 ctx.witness('loopback.foreign_dup' if c > 1 else 'loopback.foreign_lost',
                             f'foreign message id handled {c} times (expected once; fewer than 200 ids in the window)', {'id': mid})
-        ctx.case(('loop', tuple(sorted(own_kinds)), nforeign))
+        ctx.case(('loop', tuple(sorted(own_kinds)), nforeign, prefill))
         if case == 0:
             ctx.sample({'kind': 'loop-back', 'own_kinds': own_kinds, 'own_datagrams': len(own), 'foreign': nforeign, 'handled': len(handled)})
 
@@ -301,7 +325,7 @@ def run(ctx: core.Ctx):
     for k in range(4 if ctx.quick else 16):
         jobs.append(['w_sendloop', {'i': k, 'n': 50 if ctx.quick else 1250}])
     for k in range(4 if ctx.quick else 16):
-        jobs.append(['w_loopback', {'i': k, 'n': 10 if ctx.quick else 100}])
+        jobs.append(['w_loopback', {'i': k, 'n': 12 if ctx.quick else 100}])
     core.fanout(ctx, MODULE, 'dispatch', jobs)
     ctx.exhaustive = True
     ctx.extra['exhaustive_part'] = 'both random draws of _repeated_enqueue_msg (sub-check 1); send loop and loop-back are sampled'
@@ -316,6 +340,7 @@ def run(ctx: core.Ctx):
     ctx.floor('sendloop.messages', 100)
     ctx.floor('loopback.own_datagrams', 50)
     ctx.floor('loopback.foreign_ids', 20)
+    ctx.floor('loopback.prefilled_runs', 8)
     ctx.assumptions += ['time and random are looked up as module globals of networkingthread (replaced by a virtual clock / enumerating stub)',
                         'sockets and selectors are fakes; the kernel UDP path is not exercised']
 
